@@ -885,14 +885,28 @@ class Engine:
             raise Unsupported(f"loop #{ordn} of {self.cur.qualname} (line {node.lineno}) has no invariant")
         return ls
 
+    class _Names(set):
+        aug_only = frozenset()
+
     def assigned_names(self, node):
-        names = set()
+        names = self._Names()
+        aug = set()
+        for n in ast.walk(node):
+            if isinstance(n, ast.AugAssign) and isinstance(n.target, ast.Name):
+                aug.add(id(n.target))
+        plain = set()
         for n in ast.walk(node):
             if isinstance(n, ast.Name) and isinstance(n.ctx, (ast.Store, ast.Del)):
                 names.add(n.id)
+                if id(n) not in aug:
+                    plain.add(n.id)
+        # names only ever updated by `x += ...` / `x |= ...`: for a list / set / dict that is an in-place update, the identity stays
+        names.aug_only = frozenset(names - plain)
         return names
 
-    def havoc_local(self, name, v: V):
+    def havoc_local(self, name, v: V, assigned=None):
+        if isinstance(v, (VList, VSet, VDict)) and assigned is not None and name in getattr(assigned, "aug_only", ()):
+            return v
         if isinstance(v, VRef):
             return VRef(T.fresh(name, Ref), v.cname, v.role)
         if isinstance(v, VInt):
@@ -1093,7 +1107,7 @@ class Engine:
         q.assume(z3.And(i >= 0, i < T.ad_len(a)))
         for n in assigned:
             if n in q.env:
-                q.env[n] = self.havoc_local(n, q.env[n])
+                q.env[n] = self.havoc_local(n, q.env[n], assigned)
         self.assume_inv(q, self.call_inv(ls, 'assume', q, mk(q.env, i)), entry_st)
         if self.feasible(q):
             item = VPyTuple([VStr(T.ad_key(a, i)), VRef(T.ad_val(a, i), None, "opaque")])
@@ -1112,7 +1126,7 @@ class Engine:
         e.trail.append(f"L{ls.ordinal}x")
         for n in assigned:
             if n in e.env:
-                e.env[n] = self.havoc_local(n, e.env[n])
+                e.env[n] = self.havoc_local(n, e.env[n], assigned)
         self.assume_inv(e, self.call_inv(ls, 'exit', e, mk(e.env, T.ad_len(a))), entry_st, finished=True)
         if self.feasible(e):
             results.append((e, None))
@@ -1144,7 +1158,7 @@ class Engine:
         q.assume(z3.And(k >= 0, k < n))
         for nm in assigned:
             if nm in q.env:
-                q.env[nm] = self.havoc_local(nm, q.env[nm])
+                q.env[nm] = self.havoc_local(nm, q.env[nm], assigned)
         self.assume_inv(q, self.call_inv(ls, 'assume', q, mk(q.env, k)), entry_st)
         if self.feasible(q):
             self.bind_target(st.target, VInt(start + k * step), q)
@@ -1159,7 +1173,7 @@ class Engine:
         e.trail.append(f"L{ls.ordinal}x")
         for nm in assigned:
             if nm in e.env:
-                e.env[nm] = self.havoc_local(nm, e.env[nm])
+                e.env[nm] = self.havoc_local(nm, e.env[nm], assigned)
         self.assume_inv(e, self.call_inv(ls, 'exit', e, mk(e.env, n)), entry_st, finished=True)
         if self.feasible(e):
             results.append((e, None))
@@ -1190,7 +1204,7 @@ class Engine:
         q.assume(seq == z3.Concat(pre, z3.Unit(x), suf))
         for n in assigned:
             if n in q.env:
-                q.env[n] = self.havoc_local(n, q.env[n])
+                q.env[n] = self.havoc_local(n, q.env[n], assigned)
         self.assume_inv(q, self.call_inv(ls, 'assume', q, mk(q.env, pre, elem=x, suffix=suf)), entry_st)
         body_res = []
         if self.feasible(q):
@@ -1209,7 +1223,7 @@ class Engine:
         e.trail.append(f"L{ls.ordinal}x")
         for n in assigned:
             if n in e.env:
-                e.env[n] = self.havoc_local(n, e.env[n])
+                e.env[n] = self.havoc_local(n, e.env[n], assigned)
         self.assume_inv(e, self.call_inv(ls, 'exit', e, mk(e.env, seq)), entry_st, finished=True)
         if self.feasible(e):
             results.append((e, None))
@@ -1294,7 +1308,7 @@ class Engine:
                                 trigger=("cnt-args", tuple(t for t in [seq, pre, suf] + T._flat(seq) if not (T._is_unit(t) or T._is_concat(t) or T._is_empty(t))), (x,))))
         for n in assigned:
             if n in q.env:
-                q.env[n] = self.havoc_local(n, q.env[n])
+                q.env[n] = self.havoc_local(n, q.env[n], assigned)
         invk = self.call_inv(ls, 'assume', q, mk(q.env, pre, elem=x, suffix=suf))
         self.assume_inv(q, invk, entry_st)
         if not self.feasible(q):
@@ -1324,7 +1338,7 @@ class Engine:
         e.trail.append(f"L{ls.ordinal}x")
         for n in assigned:
             if n in e.env:
-                e.env[n] = self.havoc_local(n, e.env[n])
+                e.env[n] = self.havoc_local(n, e.env[n], assigned)
         inve = self.call_inv(ls, 'exit', e, mk(e.env, seq))
         self.assume_inv(e, inve, entry_st, finished=True)
         if self.feasible(e):
@@ -1354,7 +1368,7 @@ class Engine:
         q.assume(k >= 0)
         for n in assigned:
             if n in q.env:
-                q.env[n] = self.havoc_local(n, q.env[n])
+                q.env[n] = self.havoc_local(n, q.env[n], assigned)
         invk = self.call_inv(ls, 'assume', q, mk(q.env, k))
         self.assume_inv(q, invk, entry_st)
         results = []
